@@ -168,17 +168,10 @@ Definition ci_put (k : fid * Z) (c : cinst) (s : st) : st := with_cis s (upd cke
 (* ------------------------------------------------------------------ creating futures *)
 Definition fresh_task (p : prog) : task := mkTask (Some (fun _ => p)) YNone [] [] false false 0 0.
 
-(* the id of the next future created by [parent] ([] = the top-level driver) *)
+(* the id of the next future: futures are numbered in creation order (one counter per case; the
+   harness numbers them the same way).  [parent] is kept for readability of call sites only. *)
 Definition alloc (parent : fid) (s : st) : fid * st :=
-  match parent with
-  | [] => ([top_next s], with_top_next s (top_next s + 1))
-  | _ => match get_task parent s with
-         | Some tk => (parent ++ [tk_next tk],
-                       set_task parent (mkTask (tk_gen tk) (tk_last tk) (tk_deps tk) (tk_ctxs tk) (tk_cact tk)
-                                               (tk_ds tk) (tk_iter tk) (tk_next tk + 1)) s)
-         | None => (parent ++ [-1], s)
-         end
-  end.
+  ([top_next s], with_top_next s (top_next s + 1)).
 
 (* BatchItemBase.__init__ (batching.py 208-220): the item joins the registry's active batch *)
 Definition create (parent : fid) (f : fexpr) (s : st) : fid * st :=
